@@ -111,4 +111,15 @@ CLAIMS = {
     note="Trusted: TLC, crypto/sha1 and hex of the Go standard library as the reference digest (the specification names the primitive, DESIGN.md "
          "section 9), the scripted server. Only TCP (components refuse WebSocket addresses: C20).",
     technique=TECH),
+ "C13": dict(
+    text="Lifecycle.tla models the supervision as implemented: the reconnect loop runs inside the goroutine that detected the loss, failed "
+         "attempts leave a teardown reader, one transport is shared; TLC checks at-most-one-loop / one-session-per-loss / post-connect-once / "
+         "only-permanent-errors-end-the-loop / stop-returns-run and Loss ~> Session under fairness, shows that the three defects found in the "
+         "code (D6, D12, D27) each violate a property in the model, and emits every fault sequence (abrupt / graceful termination, refused, "
+         "reset, torn-down and credential-rejected attempts, resumption accepted or refused, k losses). A real StreamManager+Client runs each "
+         "against the scripted server; TLC judges per round: exactly one new session, no extra connection, post-connect once, receiving and "
+         "sending on the new connection, resumed when possible, permanent error ends the loop, retries while refused, Stop returns Run.",
+    note="Trusted: TLC, the scripted server, bounded waits (6 s for a new session, 0.5 s for 'no further attempt'; back-off delays are tens "
+         "of milliseconds). TLS-policy permanent errors are exercised in C04's model, not here. Keepalive interference during reconnection is C18's.",
+    technique=TECH),
 }
